@@ -16,6 +16,18 @@ where f ranges over the *mutable shared fields*: attributes of ``self`` assigned
 other than ``__init__``.  Over-approximations (they can only make a method look *less* atomic):
 both arms of an ``if`` are emitted one after the other, loop bodies twice (a lock span inside a loop
 is several spans), ``try`` bodies, handlers and ``finally`` in sequence.
+
+The table is only meaningful if every access to the shared state is visible in it and the lock is the lock
+the model assumes.  Whatever could hide an access or change the lock raises ``Unsupported`` (the check then
+reports that nothing is proved about this tree and searches the real class for a torn read):
+  * ``self._lock`` must be bound exactly once, in ``__init__``, to ``threading.RLock()``; any other store,
+    load (``acquire()``/``release()``, aliasing) or use outside ``with self._lock:`` is rejected;
+  * ``self`` may only occur as ``self.<attr>``: passing it to a helper, aliasing it, ``getattr(self, ...)``,
+    ``vars(self)`` would move accesses out of sight;
+  * ``self.m(...)``/``self.m`` where ``m`` is not defined in the class body (inherited, injected), base classes,
+    decorators other than ``property``, ``__getattr__``-style hooks, nested functions / lambdas / generator
+    expressions that use ``self`` (they run later, possibly after the lock was released), ``yield``;
+  * module-level statements that mention the class after its definition (monkey-patching).
 """
 import ast
 import os
@@ -44,6 +56,111 @@ def find_class(tree):
         if isinstance(n, ast.ClassDef) and n.name == CLASS:
             return n
     raise Unsupported(f'class {CLASS} not found')
+
+
+HOOKS = {'__getattr__', '__getattribute__', '__setattr__', '__delattr__', '__init_subclass__', '__new__',
+         '__enter__', '__exit__', '__del__'}
+
+
+def rlock_names(tree):
+    """Expressions that denote threading.RLock at module level: ('attr', <module alias>) / ('name', <alias>)."""
+    out = set()
+    for n in tree.body:
+        if isinstance(n, ast.Import):
+            for a in n.names:
+                if a.name == 'threading':
+                    out.add(('attr', a.asname or 'threading'))
+        elif isinstance(n, ast.ImportFrom) and n.module == 'threading' and n.level == 0:
+            for a in n.names:
+                if a.name == 'RLock':
+                    out.add(('name', a.asname or 'RLock'))
+    return out
+
+
+def check_structure(tree, cls):
+    """The assumptions under which the token table describes the class (see the module docstring)."""
+    if any(not (isinstance(b, ast.Name) and b.id == 'object') for b in cls.bases) or cls.keywords:
+        raise Unsupported(f'line {cls.lineno}: {CLASS} has base classes / a metaclass (inherited code is not modelled)')
+    if cls.decorator_list:
+        raise Unsupported(f'line {cls.lineno}: {CLASS} is decorated')
+    rl = rlock_names(tree)
+    # names that must keep their module-level meaning
+    guarded = {a for _, a in rl} | {CLASS}
+    seen_class = False
+    for n in tree.body:
+        if n is cls:
+            seen_class = True
+            continue
+        binds = set()
+        if isinstance(n, (ast.Import, ast.ImportFrom)):
+            binds = {(a.asname or a.name).split('.')[0] for a in n.names}
+            if isinstance(n, ast.Import) and all(a.name == 'threading' for a in n.names):
+                binds = set()
+            if isinstance(n, ast.ImportFrom) and n.module == 'threading' and n.level == 0:
+                binds -= {a.asname or a.name for a in n.names if a.name == 'RLock'}
+        elif isinstance(n, (ast.FunctionDef, ast.AsyncFunctionDef, ast.ClassDef)):
+            binds = {n.name}
+        else:
+            binds = {e.id for e in ast.walk(n) if isinstance(e, ast.Name) and isinstance(e.ctx, (ast.Store, ast.Del))}
+        if binds & guarded:
+            raise Unsupported(f'line {n.lineno}: module level rebinds {sorted(binds & guarded)}')
+        if seen_class and any(isinstance(e, ast.Name) and e.id == CLASS for e in ast.walk(n)):
+            raise Unsupported(f'line {n.lineno}: module-level code uses {CLASS} after its definition')
+    # the class body: plain methods only
+    inits = 0
+    for n in cls.body:
+        if isinstance(n, (ast.FunctionDef, ast.AsyncFunctionDef)):
+            if isinstance(n, ast.AsyncFunctionDef):
+                raise Unsupported(f'line {n.lineno}: async method {n.name}')
+            if n.name in HOOKS or n.name == LOCK:
+                raise Unsupported(f'line {n.lineno}: {CLASS} defines {n.name}')
+            for dec in n.decorator_list:
+                if not (isinstance(dec, ast.Name) and dec.id == 'property'):
+                    raise Unsupported(f'line {n.lineno}: decorator on {n.name} (only @property is understood)')
+            if not n.args.args or n.args.args[0].arg != 'self':
+                raise Unsupported(f'line {n.lineno}: first parameter of {n.name} is not `self`')
+            for e in ast.walk(n):
+                if isinstance(e, (ast.Yield, ast.YieldFrom, ast.Await)):
+                    raise Unsupported(f'line {e.lineno}: {n.name} is a generator / coroutine')
+                if isinstance(e, (ast.Global, ast.Nonlocal)) and set(e.names) & guarded:
+                    raise Unsupported(f'line {e.lineno}: {n.name} rebinds {sorted(set(e.names) & guarded)}')
+                if isinstance(e, ast.Name) and isinstance(e.ctx, (ast.Store, ast.Del)) and e.id in (guarded - {CLASS}) | {'self'}:
+                    raise Unsupported(f'line {e.lineno}: {n.name} rebinds {e.id}')
+                if isinstance(e, ast.arg) and e is not n.args.args[0] and e.arg in (guarded - {CLASS}) | {'self'}:
+                    raise Unsupported(f'line {n.lineno}: a parameter of {n.name} shadows {e.arg}')
+        elif isinstance(n, ast.Expr) and isinstance(n.value, ast.Constant):
+            pass                                    # docstring
+        elif isinstance(n, ast.Pass):
+            pass
+        else:
+            # class-level assignments could inject callables or a shared `_lock`
+            names = {e.id for e in ast.walk(n) if isinstance(e, ast.Name) and isinstance(e.ctx, ast.Store)}
+            simple = isinstance(n, (ast.Assign, ast.AnnAssign)) and isinstance(getattr(n, 'value', None), ast.Constant)
+            if not simple or LOCK in names:
+                raise Unsupported(f'line {n.lineno}: statement in the body of {CLASS} other than a method or a constant')
+    # the lock: bound once, in __init__, at the top level of its body, to threading.RLock()
+    for fn in cls.body:
+        if not isinstance(fn, ast.FunctionDef):
+            continue
+        for e in ast.walk(fn):
+            if is_self_attr(e, LOCK) and isinstance(e.ctx, (ast.Store, ast.Del)):
+                ok = False
+                if fn.name == '__init__':
+                    for st in fn.body:
+                        if (isinstance(st, ast.Assign) and len(st.targets) == 1 and st.targets[0] is e
+                                and isinstance(st.value, ast.Call) and not st.value.args and not st.value.keywords):
+                            f = st.value.func
+                            if isinstance(f, ast.Attribute) and f.attr == 'RLock' and isinstance(f.value, ast.Name) \
+                                    and ('attr', f.value.id) in rl:
+                                ok = True
+                            if isinstance(f, ast.Name) and ('name', f.id) in rl:
+                                ok = True
+                if not ok:
+                    raise Unsupported(f'line {e.lineno}: self.{LOCK} is bound in {fn.name} to something other than '
+                                      f'a fresh threading.RLock() (or outside __init__)')
+                inits += 1
+    if inits != 1:
+        raise Unsupported(f'self.{LOCK} is bound {inits} times (expected exactly once, in __init__)')
 
 
 def mutable_fields(cls):
@@ -79,9 +196,12 @@ def mutable_fields(cls):
 
 
 class Footprint(ast.NodeVisitor):
-    def __init__(self, fields, methods):
+    def __init__(self, fields, methods, properties=(), data_attrs=(), in_init=False):
         self.fields = fields
         self.methods = methods
+        self.properties = set(properties)
+        self.data_attrs = set(data_attrs)       # attributes of self assigned somewhere in the class (plain data)
+        self.in_init = in_init
         self.toks = []
 
     # ---- statements ---------------------------------------------------------
@@ -146,11 +266,25 @@ class Footprint(ast.NodeVisitor):
         self._loop(node, lambda: self.visit(node.test))
 
     def visit_FunctionDef(self, node):
-        pass                            # nested definitions are not executed here
+        # nested definitions are not executed here — and must not touch the object later, out of sight
+        for e in ast.walk(node):
+            if isinstance(e, ast.Name) and e.id == 'self':
+                raise Unsupported(f'line {node.lineno}: a nested function / lambda / class uses self')
 
     visit_AsyncFunctionDef = visit_FunctionDef
     visit_Lambda = visit_FunctionDef
     visit_ClassDef = visit_FunctionDef
+
+    def visit_GeneratorExp(self, node):
+        # evaluated lazily: only the first iterable is computed here
+        for e in ast.walk(node):
+            if isinstance(e, ast.Name) and e.id == 'self':
+                raise Unsupported(f'line {node.lineno}: a generator expression uses self (evaluated later)')
+
+    def visit_Name(self, node):
+        if node.id == 'self':
+            # every legitimate occurrence (`self.<attr>`) is consumed by visit_Attribute/_store/visit_Call
+            raise Unsupported(f'line {node.lineno}: self escapes (used other than as self.<attribute>)')
 
     # ---- expressions -----------------------------------------------------------
     def _field(self, kind, name):
@@ -177,6 +311,8 @@ class Footprint(ast.NodeVisitor):
             self._store(t.value)
         elif isinstance(t, ast.Attribute):
             self.visit(t.value)
+        elif isinstance(t, ast.Name) and t.id == 'self':
+            raise Unsupported(f'line {t.lineno}: self rebound')
 
     def visit_Attribute(self, node):
         if is_self_attr(node):
@@ -185,8 +321,15 @@ class Footprint(ast.NodeVisitor):
                     # the lock object used other than in `with self._lock:` (acquire()/release() calls,
                     # passing it around): not modelled
                     raise Unsupported(f'line {node.lineno}: self.{LOCK} used outside a with statement')
+                if node.attr in self.methods:
+                    if node.attr in self.properties:
+                        self.toks.append(('call', self.methods.index(node.attr)))      # a property runs its getter
+                        return
+                    raise Unsupported(f'line {node.lineno}: bound method self.{node.attr} taken without calling it')
                 self._field('read', node.attr)
             else:
+                if node.attr == LOCK and not self.in_init:
+                    raise Unsupported(f'line {node.lineno}: self.{LOCK} rebound')
                 self._field('write', node.attr)
         else:
             self.visit(node.value)
@@ -200,6 +343,8 @@ class Footprint(ast.NodeVisitor):
                 self.visit(k.value)
             self.toks.append(('call', self.methods.index(f.attr)))
             return
+        if is_self_attr(f) and f.attr not in self.data_attrs:
+            raise Unsupported(f'line {node.lineno}: self.{f.attr}(...) is not a method defined in the class body')
         if isinstance(f, ast.Attribute) and is_self_attr(f.value) and f.attr in MUTATORS:
             for a in node.args:
                 self.visit(a)
@@ -216,17 +361,27 @@ def translate(repo=None):
     path = os.path.join(repo, 'psiaudio', 'buffer.py')
     tree = ast.parse(open(path).read(), path)
     cls = find_class(tree)
+    check_structure(tree, cls)
     fields = mutable_fields(cls)
     fns = [n for n in cls.body if isinstance(n, (ast.FunctionDef, ast.AsyncFunctionDef))]
     names = [f.name for f in fns]
+    if len(set(names)) != len(names):
+        raise Unsupported('a method is defined twice in the class body')
+    props = [f.name for f in fns if f.decorator_list]
+    data_attrs = {e.attr for f in fns for e in ast.walk(f)
+                  if is_self_attr(e) and isinstance(e.ctx, ast.Store)} - set(names)
     methods = []
     for f in fns:
-        fp = Footprint(fields, names)
+        fp = Footprint(fields, names, props, data_attrs, in_init=f.name == '__init__')
+        for a in f.args.defaults + [k for k in f.args.kw_defaults if k is not None]:
+            fp.visit(a)
         for s in f.body:
             fp.visit(s)
         methods.append(fp.toks)
     return {'path': path, 'fields': fields, 'names': names, 'methods': methods,
-            'lines': {f.name: f.lineno for f in fns}}
+            'lines': {f.name: f.lineno for f in fns},
+            # first line of the code object: the first decorator, if any
+            'deflines': {f.name: min([f.lineno] + [x.lineno for x in f.decorator_list]) for f in fns}}
 
 
 def tok_lean(t, fields, names):
